@@ -351,9 +351,9 @@ func plausibleCToks(r *Rng, n int, withMacros bool) []CTok {
 		} else {
 			stack = stack[depths[i]:]
 		}
-		hoist := k.IsHTTPRequestMethod() && t.HasPath && len(stack) > 0 && stack[0].kind == directive.URL
-		if hoist {
-			stack = nil
+		// a method with its own path ends the context of the URL it would otherwise nest in
+		for k.IsHTTPRequestMethod() && t.HasPath && len(stack) > 0 && stack[0].kind == directive.URL && !stack[0].explicit {
+			stack = stack[1:]
 		}
 		stack = append([]fr{{k, t.Explicit}}, stack...)
 	}
